@@ -13,6 +13,7 @@
 (*   evattr      solve.rs  parse_events  (terminal / direction attributes) *)
 (*   jac         solve.rs / ivp_wrapper.rs  constant | callable | FD       *)
 (*   jacread     ivp_wrapper.rs parse_matrix: strided element reads         *)
+(*   spform      sparsity.rs from_python: tocsc() first, else own indices   *)
 (*   group       sparsity.rs group_columns + sparse_jacobian_fd            *)
 (* Level A (contract, from the statement of C20): the operators named      *)
 (* *Contract below.  TLC checks  LevelB => Contract  for every input of    *)
@@ -76,6 +77,18 @@ DirHalves(d) == CASE d = "absent" -> 0 [] d = "m1" -> -2 [] d = "z" -> 0 [] d = 
 \* C-ordered / Fortran-ordered float64, transposed view of a C array, strided view, integer dtypes
 JacMatrixForms == {"ndarray", "fortran", "tview", "strided", "intarray", "intfortran", "int32"}
 JacForms  == {"none", "callable"} \cup JacMatrixForms
+\* containers of a jac_sparsity pattern: does the object offer tocsc(), and in which compressed layout are its OWN
+\* indices / indptr attributes (if any).  scipy's csr / bsr matrices carry indices / indptr too -- in ROW layout.
+SpForms ==
+  { [form |-> "csc",       tocsc |-> FALSE, own |-> "csc"],     \* duck-typed: shape, indices, indptr (lists)
+    [form |-> "csc_np",    tocsc |-> FALSE, own |-> "csc"],     \* the same with int32 ndarrays
+    [form |-> "tocsc",     tocsc |-> TRUE,  own |-> "none"],    \* only shape + tocsc()
+    [form |-> "coo_tocsc", tocsc |-> TRUE,  own |-> "none"],    \* COO-like: row, col, shape, tocsc()
+    [form |-> "csr_tocsc", tocsc |-> TRUE,  own |-> "csr"],     \* CSR-like: indices / indptr in row layout + tocsc()
+    [form |-> "sp_csc",    tocsc |-> TRUE,  own |-> "csc"],     \* scipy.sparse matrices (when importable)
+    [form |-> "sp_csr",    tocsc |-> TRUE,  own |-> "csr"],
+    [form |-> "sp_coo",    tocsc |-> TRUE,  own |-> "none"],
+    [form |-> "sp_lil",    tocsc |-> TRUE,  own |-> "none"] }
 \* memory layout of a delivery form: <<offset of element (r, c) in the buffer (0-based r, c), buffer length>>
 JacLayouts == {"ndarray", "fortran", "tview", "strided"}
 LayoutOffset(layout, n, r, c) ==
@@ -152,6 +165,9 @@ EvAttrContract(t, d, o) ==
 JacContract(form, o) ==
   /\ (form = "none" => o.source = "fd")
   /\ (form \in JacMatrixForms \cup {"callable"} => o.source = "user")
+
+\* the pattern the binding works with is the declared one (element (r, c) of the container), never its transpose
+SparsityFormContract(i, o) == o.read = "csc"
 
 \* whatever the memory layout of the delivered array, the solver must see J[r][c] = d f_r / d y_c (the logical element)
 JacReadContract(n, o) == \A r \in 1..n : \A c \in 1..n : o.J[r][c] = Src(r - 1, c - 1)
@@ -307,6 +323,11 @@ ParseJac ==
              njev |-> IF inp \in JacMatrixForms THEN "zero" ELSE "solver"]   \* is_constant_jac => njev = 0
   /\ pc' = "done" /\ UNCHANGED <<mach, inp, st>>
 
+ParseSparsity ==   \* sparsity.rs from_python: `tocsc()` first when the object has it, else the object's own indices / indptr as CSC
+  /\ mach = "spform" /\ pc = "alloc"
+  /\ out' = [via |-> IF inp.tocsc THEN "tocsc" ELSE "own", read |-> IF inp.tocsc THEN "csc" ELSE inp.own]
+  /\ pc' = "done" /\ UNCHANGED <<mach, inp, st>>
+
 \* ---- parse_matrix (ivp_wrapper.rs): element-wise read through the array's strides ----
 JBuffer ==     \* the numpy buffer of the delivered array: logical element (r, c) stored at LayoutOffset
   /\ mach = "jacread" /\ pc = "alloc"
@@ -404,6 +425,7 @@ Init ==
      \/ mach = "step" /\ inp \in StepForms
      \/ mach = "evattr" /\ inp \in [terminal : TermForms, direction : DirForms]
      \/ mach = "jac" /\ inp \in JacForms
+     \/ mach = "spform" /\ inp \in SpForms
      \/ mach = "jacread" /\ inp \in [n : 1..3, layout : JacLayouts]
      \/ mach = "group" /\ inp \in BlockInputs
   /\ pc = (IF mach = "group" THEN "pick" ELSE "alloc") /\ st = Nothing /\ out = Nothing
@@ -412,7 +434,7 @@ Next ==
   \/ TAlloc \/ TWrite \/ TEmptyRow \/ TReshape
   \/ EStart \/ EExtend \/ EReshape
   \/ SScalar \/ SStart \/ SEval \/ SEvalDone \/ STranspose \/ SReshape
-  \/ JBuffer \/ JRead \/ JDone
+  \/ JBuffer \/ JRead \/ JDone \/ ParseSparsity
   \/ StatusMap \/ ParseMethod \/ ParseTol \/ ParseStep \/ ParseEvAttr \/ ParseJac
   \/ GPick \/ GStart \/ GAssign \/ GNew \/ GFdStart \/ GFdGroup \/ GDone
 
@@ -433,6 +455,7 @@ Contract ==
       [] mach = "evattr" -> EvAttrContract(inp.terminal, inp.direction, out)
       [] mach = "jac" -> JacContract(inp, out)
       [] mach = "jacread" -> JacReadContract(inp.n, out)
+      [] mach = "spform" -> SparsityFormContract(inp, out)
       [] mach = "group" -> GroupsContract(inp.n, inp.rows, out) /\ FDContract(inp.n, inp.rows, out)
 
 \* where Level B departs from the literal statement: exactly the empty shapes (m = 0 with n >= 1; sol of an empty array)
@@ -457,12 +480,13 @@ Scenario ==
     [] mach = "evattr" -> [kind |-> "evattr", terminal |-> inp.terminal, direction |-> inp.direction,
                            rterm |-> out.rterm, rdir |-> out.rdir, doc |-> (DocTerm(inp.terminal) /\ DocDir(inp.direction))]
     [] mach = "jac" -> [kind |-> "jac", form |-> inp, source |-> out.source, njev |-> out.njev]
+    [] mach = "spform" -> [kind |-> "spform", form |-> inp.form, via |-> out.via, own |-> inp.own]
     [] mach = "jacread" -> [kind |-> "jaclayout", n |-> inp.n, form |-> inp.layout]
     [] mach = "group" -> [kind |-> "pattern", n |-> inp.n, rows |-> inp.rows, groups |-> out.groups, ngroups |-> out.ngroups]
 
 Emit == pc = "done" => PrintT(<<"REPLAY", ToJson(Scenario)>>)
 
 TypeOK ==
-  /\ mach \in {"transpose", "evflat", "sol", "status", "method", "tol", "step", "evattr", "jac", "jacread", "group"}
+  /\ mach \in {"transpose", "evflat", "sol", "status", "method", "tol", "step", "evattr", "jac", "jacread", "spform", "group"}
   /\ pc \in {"pick", "alloc", "loop", "eval", "tr", "cols", "fd", "done"}
 =============================================================================
